@@ -105,14 +105,14 @@ def setBitLoop (limbNum indexMask bitValue : Nat) : List Nat → Nat → List Na
 def setBit (a : List Nat) (index bitValue : Nat) : List Nat :=
   setBitLoop (index / 64) (wshl 1 (index % 64)) bitValue a 0
 
-/-- `Uint::set_bit_vartime(index, bit_value)`: `limbs[limb_num]` is indexed directly; `none` = panic
-    (index out of bounds) when `index >= BITS`. -/
-def setBitVartime (a : List Nat) (index : Nat) (bitValue : Bool) : Option (List Nat) :=
+/-- `Uint::set_bit_vartime(index, bit_value)` / `BoxedUint::set_bit_vartime`: early return of the unchanged
+    value when `limb_num >= LIMBS`, otherwise `limbs[limb_num]` is updated in place. -/
+def setBitVartime (a : List Nat) (index : Nat) (bitValue : Bool) : List Nat :=
   let limbNum := index / 64
   let iil := index % 64
-  if limbNum ≥ a.length then none else
+  if limbNum ≥ a.length then a else
   let old := a.getD limbNum 0
-  some (a.set limbNum (if bitValue then old ||| wshl 1 iil else old &&& wnot (wshl 1 iil)))
+  a.set limbNum (if bitValue then old ||| wshl 1 iil else old &&& wnot (wshl 1 iil))
 
 /-! ### bitwise operators -/
 
@@ -133,11 +133,7 @@ def mapLimbs (f : Nat → Nat → Nat) : List Nat → List Nat → List Nat
   | [], b :: bs => f 0 b :: mapLimbs f [] bs
   | [], [] => []
 
-/-- `BitOrAssign<&BoxedUint> for BoxedUint`: `for (a, b) in self.limbs.iter_mut().zip(other.limbs.iter())`
-    — only the receiver's limbs are visited, limbs of a longer `other` are dropped. -/
-def orAssign : List Nat → List Nat → List Nat
-  | a :: as, b :: bs => (a ||| b) :: orAssign as bs
-  | as, [] => as
-  | [], _ => []
+/-- `BitOrAssign<&BoxedUint> for BoxedUint`: `*self = Self::bitor(self, other)` (widens like `&=`, `^=`). -/
+def orAssign (a b : List Nat) : List Nat := mapLimbs (· ||| ·) a b
 
 end CB.Bits
